@@ -5,7 +5,10 @@
  *   c19_dump <scratch-dir>       reads one case per line on stdin; every case runs in a forked child
  *
  * Case line (all integers decimal, names without blanks):
- *   case <id> hex <H> nw <NW> sc <START_CLOCK> chk <CHK>
+ *   history <hid> <k> <cleanup> ;; <case> ;; <case> ...     k sessions recorded by ONE process (see run_history)
+ *   case <id> hex <H> [keep <K>] nw <NW> sc <START_CLOCK> chk <CHK> [wsa <0|1>]
+ *        (keep 1: the .dag file stays in the scratch dir as c<id>.dag; wsa 0: worker states in the linear list
+ *         found through a pthread key instead of the array)
  *        rec <uncollapse_min> <collapse_max> <node_count_target> <prune_threshold> <collapse_max_count>
  *        conv <uncollapse_min> <collapse_max> <collapse_max_count>
  *        files <NF> <name>*NF
@@ -136,6 +139,10 @@ static void expect(const char * s) { const char * t = tk(); if (strcmp(t, s)) { 
 /* every file name exists in two copies at different addresses, used alternately, so that the string
    table has to compare contents and not pointers */
 static char ** g_files; static char ** g_files2; static int g_nfiles; static unsigned g_fcalls;
+/* with the linear list of worker states (wsa 0) a state belongs to the calling THREAD and takes the worker id of
+   the first call; this harness has one thread, which is worker 0 as dr_get_worker() would number it */
+static int g_wsa = 1;
+static int WK(long long x) { return g_wsa ? (int)x : 0; }
 static const char * fname(long long k) {
   int i = (int)((k % g_nfiles + g_nfiles) % g_nfiles);
   return (g_fcalls++ & 1) ? g_files2[i] : g_files[i];
@@ -151,7 +158,7 @@ static void run_items(toc * c, int in_section, unsigned long long * max_child_en
 static unsigned long long run_task(dr_dag_node * parent, unsigned long long t_create, int is_root, dr_options * opts, int nw) {
   toc c[1];
   expect("T");
-  c->w = (int)tki();
+  c->w = WK(tki());
   { long long ds = tki(); long long f = tki(); long long l = tki();
     c->now = t_create + ds;
     g_now = c->now;
@@ -176,7 +183,7 @@ static void run_items(toc * c, int in_section, unsigned long long * max_child_en
       long long d = tki(), f = tki(), l = tki(), d2 = tki(), w2 = tki(), f2 = tki(), l2 = tki();
       c->now += d; g_now = c->now;
       dr_dag_node * tt = dr_enter_other__(fname(f), (int)l, c->w);
-      c->now += d2; g_now = c->now; c->w = (int)w2;
+      c->now += d2; g_now = c->now; c->w = WK(w2);
       dr_return_from_other__(tt, fname(f2), (int)l2, c->w);
     } else if (!strcmp(t, "S")) {
       g_pos++;
@@ -189,7 +196,7 @@ static void run_items(toc * c, int in_section, unsigned long long * max_child_en
       c->now += d; g_now = c->now;
       dr_dag_node * tt = dr_enter_wait_tasks__(fname(f), (int)l, c->w);
       if (mx > c->now) c->now = mx;
-      c->now += d2; g_now = c->now; c->w = (int)w2;
+      c->now += d2; g_now = c->now; c->w = WK(w2);
       dr_return_from_wait_tasks__(tt, fname(f2), (int)l2, c->w);
     } else if (!strcmp(t, "C") && in_section) {
       g_pos++;
@@ -200,7 +207,7 @@ static void run_items(toc * c, int in_section, unsigned long long * max_child_en
       unsigned long long ce = run_task(cn, c->now, 0, 0, nw);
       if (ce > *max_child_end) *max_child_end = ce;
       long long d2 = tki(), w2 = tki(), f2 = tki(), l2 = tki();
-      c->now += d2; g_now = c->now; c->w = (int)w2;
+      c->now += d2; g_now = c->now; c->w = WK(w2);
       dr_return_from_create_task__(tt, fname(f2), (int)l2, c->w);
     } else {
       return;
@@ -268,52 +275,103 @@ static int files_equal(const char * a, const char * b) {
 
 static char g_self[600];
 
-static void run_case(const char * dir) {
+typedef struct {
+  long long id, hexlim; int keep, chk, nw, wsa;
   char prefix[512], prefix2[512];
+  const char * c_umin, * c_cmax, * c_cmc;
+  int end_w;
+} session;
+
+static int peek(const char * s) { return g_pos < g_ntok && !strcmp(g_tok[g_pos], s); }
+
+/* parse one "case ..." description, record it (dr_start .. dr_stop), print the in-memory tree, dr_dump().
+   [no_init]: the previous session of this process was not cleaned up, GS.opts stay as they are */
+static void record_session(const char * dir, session * S, int no_init) {
   dr_options opts[1];
-  long long id, hexlim; int nw, i;
-  expect("case"); id = tki();
-  expect("hex"); hexlim = tki();
-  expect("nw"); nw = (int)tki();
+  int i;
+  expect("case"); S->id = tki();
+  expect("hex"); S->hexlim = tki();
+  S->keep = 0; if (peek("keep")) { g_pos++; S->keep = (int)tki(); }
+  expect("nw"); S->nw = (int)tki();
   expect("sc"); unsigned long long sc = (unsigned long long)tki();
-  expect("chk"); int chk = (int)tki();
+  expect("chk"); S->chk = (int)tki();
+  S->wsa = 1; if (peek("wsa")) { g_pos++; S->wsa = (int)tki(); }
+  g_wsa = S->wsa;
   dr_options_default_(opts);
   opts->on = 1;
   opts->dag_file_yes = 1; opts->stat_file_yes = 1; opts->gpl_file_yes = 0; opts->dot_file_yes = 0; opts->text_file_yes = 0;
-  opts->worker_specific_state_array = 1;
-  opts->chk_level = (char)chk; opts->dbg_level = 0; opts->verbose_level = 0; opts->papi_on = 0; opts->record_cpu = 0;
+  opts->worker_specific_state_array = (char)S->wsa;
+  opts->chk_level = (char)S->chk; opts->dbg_level = 0; opts->verbose_level = 0; opts->papi_on = 0; opts->record_cpu = 0;
   expect("rec");
   opts->uncollapse_min = (dr_clock_t)tki(); opts->collapse_max = (dr_clock_t)tki();
   opts->node_count_target = (long)tki(); opts->prune_threshold = (long)tki(); opts->collapse_max_count = (long)tki();
   expect("conv");
-  const char * c_umin = tk(); const char * c_cmax = tk(); const char * c_cmc = tk();
+  S->c_umin = tk(); S->c_cmax = tk(); S->c_cmc = tk();
   expect("files");
   g_nfiles = (int)tki();
   g_files = (char **)malloc(sizeof(char *) * (g_nfiles + 1));
   g_files2 = (char **)malloc(sizeof(char *) * (g_nfiles + 1));
   for (i = 0; i < g_nfiles; i++) { g_files[i] = strdup(tk()); g_files2[i] = strdup(g_files[i]); }
   expect("prog");
-  snprintf(prefix, sizeof prefix, "%s/c%lld_%d", dir, id, (int)getpid());
-  snprintf(prefix2, sizeof prefix2, "%s/d%lld_%d", dir, id, (int)getpid());
-  opts->dag_file_prefix = prefix;
+  snprintf(S->prefix, sizeof S->prefix, "%s/c%lld", dir, S->id);
+  snprintf(S->prefix2, sizeof S->prefix2, "%s/d%lld", dir, S->id);
+  opts->dag_file_prefix = strdup(S->prefix);
+  if (no_init) GS.opts.dag_file_prefix = opts->dag_file_prefix;
 
   g_dr_verif_clock = vclock;
   g_now = sc;
-  printf("BEGIN %lld\n", id);
-  run_task(0, sc, 1, opts, nw);
-  printf("TREE %llu %d", (unsigned long long)GS.start_clock, nw);
+  printf("BEGIN %lld\n", S->id);
+  fflush(stdout);
+  run_task(0, sc, 1, opts, S->nw);
+  /* with the linear list of worker states every call of this (single) thread uses one state: one worker */
+  printf("TREE %llu %d", (unsigned long long)GS.start_clock, GS.worker_specific_state_array ? S->nw : 1);
   print_tree(GS.root);
   printf("\n");
   fflush(stdout);
   dr_dump_();                      /* dr_make_pi_dag + file writer + .stat of the in-memory dag */
   fflush(stdout);
-  /* the file is read back by a FRESH process image (pointers written into the file by this
-     process must not be usable by the reader) */
-  {
-    char a_id[32], a_hex[32], a_chk[8];
-    snprintf(a_id, sizeof a_id, "%lld", id); snprintf(a_hex, sizeof a_hex, "%lld", hexlim); snprintf(a_chk, sizeof a_chk, "%d", chk);
-    execl(g_self, "c19_dump", "--read", prefix, prefix2, a_id, a_hex, c_umin, c_cmax, c_cmc, a_chk, (char *)0);
-    printf("EXEC-FAILED\n"); fflush(stdout); _exit(4);
+}
+
+/* the file is read back by a FRESH process image (pointers written into the file by this
+   process must not be usable by the reader) */
+static void exec_reader(session * S) {
+  char a_id[32], a_hex[32], a_chk[8], a_keep[8];
+  snprintf(a_id, sizeof a_id, "%lld", S->id); snprintf(a_hex, sizeof a_hex, "%lld", S->hexlim);
+  snprintf(a_chk, sizeof a_chk, "%d", S->chk); snprintf(a_keep, sizeof a_keep, "%d", S->keep);
+  execl(g_self, "c19_dump", "--read", S->prefix, S->prefix2, a_id, a_hex, S->c_umin, S->c_cmax, S->c_cmc, a_chk, a_keep, (char *)0);
+  printf("EXEC-FAILED\n"); fflush(stdout); _exit(4);
+}
+
+static void run_case(const char * dir) {
+  session S[1];
+  record_session(dir, S, 0);
+  exec_reader(S);
+}
+
+/* several profiling sessions in ONE process:  history <hid> <k> <cleanup> ;; case .. ;; case ..
+   after every session its file is judged by reader processes exactly like a single session's; then
+   dr_cleanup() (cleanup = 1) or nothing (cleanup = 0: the next dr_start() recycles the previous dag and
+   keeps the options of the first session) */
+static void run_history(const char * dir) {
+  int k, n, cl;
+  expect("history"); tk(); n = (int)tki(); cl = (int)tki();
+  for (k = 0; k < n; k++) {
+    session S[1];
+    expect(";;");
+    record_session(dir, S, !cl && k > 0);
+    {
+      pid_t pid = fork();
+      if (pid == 0) { alarm(60); exec_reader(S); }
+      else {
+        int st = 0;
+        waitpid(pid, &st, 0);
+        if (!(WIFEXITED(st) && WEXITSTATUS(st) == 0)) {
+          printf("\nCRASH %lld %d %d\n", S->id, WIFSIGNALED(st) ? WTERMSIG(st) : 0, WIFEXITED(st) ? WEXITSTATUS(st) : -1);
+          fflush(stdout);
+        }
+      }
+    }
+    if (cl) dr_cleanup__("cleanup.c", 1, 0, S->nw);
   }
 }
 
@@ -329,6 +387,7 @@ static int stage_read(char ** a) {
   const char * prefix = a[0], * prefix2 = a[1];
   long long hexlim = atoll(a[3]);
   int chk = atoi(a[7]);
+  int keep = atoi(a[8]);
   char path[600], path2[600], st1[600], st2[600];
   snprintf(path, sizeof path, "%s.dag", prefix);
   snprintf(path2, sizeof path2, "%s.dag", prefix2);
@@ -356,7 +415,8 @@ static int stage_read(char ** a) {
     dr_gen_pi_dag(G2);
   }
   fflush(stdout);
-  unlink(path); unlink(st1); unlink(st2);
+  if (!keep) unlink(path);
+  unlink(st1); unlink(st2);
   execl(g_self, "c19_dump", "--print", path2, "3", a[3], a[2], (char *)0);
   printf("EXEC-FAILED\n"); fflush(stdout);
   return 4;
@@ -381,7 +441,7 @@ int main(int argc, char ** argv) {
   char * line = 0; size_t cap = 0; ssize_t len;
   { ssize_t r = readlink("/proc/self/exe", g_self, sizeof g_self - 1); if (r < 0) r = 0; g_self[r] = 0; }
   if (argc >= 2 && !strcmp(argv[1], "--layout")) { print_layout(); return 0; }
-  if (argc >= 10 && !strcmp(argv[1], "--read")) return stage_read(argv + 2);
+  if (argc >= 11 && !strcmp(argv[1], "--read")) return stage_read(argv + 2);
   if (argc >= 6 && !strcmp(argv[1], "--print")) return stage_print(argv + 2);
   if (argc < 2) { fprintf(stderr, "usage: %s --layout | <scratch dir>\n", argv[0]); return 2; }
   mkdir(argv[1], 0777);
@@ -399,8 +459,8 @@ int main(int argc, char ** argv) {
       pid_t pid = fork();
       if (pid == 0) {
         g_tok = toks; g_ntok = n; g_pos = 0;
-        alarm(60);
-        run_case(argv[1]);
+        alarm(120);
+        if (!strcmp(toks[0], "history")) run_history(argv[1]); else run_case(argv[1]);
         fflush(stdout);
         _exit(0);
       } else {
